@@ -132,9 +132,49 @@ def parse_file(data, bof):
     return out, b""
 
 
+class track_streams:
+    """While active, every binary file object opened through pathlib.Path.open (what UKVFile uses) is remembered, so
+    that a process death can be played without running any of UKVFile's own code: the buffered bytes are handed to the
+    OS in order and the descriptor goes away."""
+    def __init__(self):
+        self.streams = []
+
+    def __enter__(self):
+        import pathlib
+        self.orig = pathlib.Path.open
+        orig, streams = self.orig, self.streams
+
+        def opener(pth, mode="r", *a, **k):
+            f = orig(pth, mode, *a, **k)
+            if "b" in mode:
+                streams.append(f)
+            return f
+        pathlib.Path.open = opener
+        return self
+
+    def die(self):
+        for f in self.streams:
+            if not f.closed:
+                try:
+                    f.flush()
+                except Exception:
+                    pass
+                f.close()
+        self.streams.clear()
+
+    def __exit__(self, *a):
+        import pathlib
+        pathlib.Path.open = self.orig
+
+
 def drive(path, ops, nh=3, h1=None, h2=b"", b0=b"", init_bytes=None):
     """Runs `ops` on the real implementation.  Returns dict(results=[coq res], ops=[coq op], final=bytes,
     init=bytes, oracle=[(sig, text)])."""
+    with track_streams() as ts:
+        return _drive(ts, path, ops, nh, h1, h2, b0, init_bytes)
+
+
+def _drive(ts, path, ops, nh, h1, h2, b0, init_bytes):
     from molli.storage.ukvfile import UKVFile
     from io import UnsupportedOperation
     if os.path.exists(path):
@@ -162,9 +202,7 @@ def drive(path, ops, nh=3, h1=None, h2=b"", b0=b"", init_bytes=None):
         kind = o[0]
         if kind == "crash":
             # the process dies: buffered data reach the file in order, the file keeps a prefix
-            for h in hs:
-                if h is not None and not h.closed:
-                    h.close()
+            ts.die()        # no close(), no __exit__: none of the library's own code runs when a process dies
             size = os.path.getsize(path)
             n = committed_end + int(o[1] * (size - committed_end) + 0.5) if size > committed_end else size
             with open(path, "r+b") as f:
